@@ -1,0 +1,7 @@
+//go:build !verif
+
+package main
+
+import "ti/parser"
+
+func verifStep(p *parser.Parser, round string, isLoad bool, eof bool) {}
